@@ -913,7 +913,7 @@ class Vector():
 				raise ValueError(f"Length mismatch: {len(self)} != {len(other)}")
 			result_values = tuple(False if (x is None or y is None) else bool(op(x, y)) for x, y in zip(self, other, strict=True))
 			return Vector(result_values, dtype=DataType(bool, nullable=False))
-		if isinstance(other, Iterable) and not isinstance(other, (str, bytes, bytearray, int, float, complex, Enum)):
+		if isinstance(other, Iterable) and not isinstance(other, (str, bytes, bytearray, int, float, complex, Enum, Mapping)):
 			# Raise mismatched lengths
 			if len(self) != len(other):
 				raise ValueError(f"Length mismatch: {len(self)} != {len(other)}")
@@ -1112,7 +1112,7 @@ class Vector():
 			return Vector(vals, dtype=infer_dtype(vals), name=None, as_row=self._display_as_row)
 		
 		# Scalar + Vector
-		if not isinstance(other, Iterable) or isinstance(other, (str, bytes, bytearray, int, float, complex, Enum)):
+		if not isinstance(other, Iterable) or isinstance(other, (str, bytes, bytearray, int, float, complex, Enum, Mapping)):
 			vals = []
 			for x in self:
 				if x is None:
@@ -1122,7 +1122,7 @@ class Vector():
 			return Vector(vals, dtype=infer_dtype(vals), name=None, as_row=self._display_as_row)
 		
 		# Iterable + Vector
-		if isinstance(other, Iterable) and not isinstance(other, (str, bytes, bytearray, int, float, complex, Enum)):
+		if isinstance(other, Iterable) and not isinstance(other, (str, bytes, bytearray, int, float, complex, Enum, Mapping)):
 			if len(self) != len(other):
 				raise ValueError(f"Length mismatch: {len(self)} != {len(other)}")
 			vals = []
@@ -1864,7 +1864,7 @@ class _Date(Vector):
 			if other.schema() is not None and other.schema().kind == datetime:
 				# (a <datetime> vector may still hold plain dates: both sides are compared as datetimes)
 				return Vector(tuple(False if (x is None or y is None) else bool(op(_at_midnight(x), _at_midnight(y))) for x, y in zip(self, other, strict=True)), dtype=DataType(bool))
-		elif isinstance(other, Iterable) and not isinstance(other, (str, bytes, bytearray, int, float, complex, Enum)):
+		elif isinstance(other, Iterable) and not isinstance(other, (str, bytes, bytearray, int, float, complex, Enum, Mapping)):
 			# Raise mismatched lengths
 			if len(self) != len(other):
 				raise ValueError(f"Length mismatch: {len(self)} != {len(other)}")
